@@ -170,14 +170,14 @@ theorem selectedPlates_emptyIter (p : Prog) (o o' : Bool) (h : p.cur = []) :
 def Quiet (p : Prog) (jk : Junk) : Prop := jk = .none ∨ (jk = .emptyIter ∧ p.cur = [])
 
 theorem planStep_quiet (hm : HasMarker cfg) (hB : 1 ≤ cfg.B) (p : Prog) (hp : ProgOK cfg.B p)
-    (jk : Junk) (hq : Quiet p jk) :
+    (hw : WfOK cfg p) (jk : Junk) (hq : Quiet p jk) :
     planStep cfg ⟨true, treeIters cfg p jk⟩ =
       if isFinished cfg p then .finished
       else match planLaunch cfg p with
         | .err e => .failed (preOf p jk) e
         | .ok l => .go (preOf p jk) l := by
   have hj : JunkOK jk := by rcases hq with rfl | ⟨rfl, _⟩ <;> trivial
-  have hex := examine_treeIters cfg hm cfg.B hB p hp jk hj true
+  have hex := examine_treeIters cfg hm cfg.B hB p hp hw jk hj true
   have hex' : examine cfg.B ⟨true, treeIters cfg p jk⟩ = .ok (nextOfProg cfg p) := by
     rw [hex]; rcases hq with rfl | ⟨rfl, _⟩ <;> rfl
   unfold planStep
@@ -243,10 +243,10 @@ theorem planStep_quiet (hm : HasMarker cfg) (hB : 1 ≤ cfg.B) (p : Prog) (hp : 
     rfl
 
 theorem planStep_junk (hm : HasMarker cfg) (hB : 1 ≤ cfg.B) (p : Prog) (hp : ProgOK cfg.B p)
-    (s : Option (List File)) (hj : JunkOK (.plate s)) (o : Bool) :
+    (hw : WfOK cfg p) (s : Option (List File)) (hj : JunkOK (.plate s)) (o : Bool) :
     planStep cfg ⟨o, treeIters cfg p (.plate s)⟩ = .named p.cs.length p.cur.length := by
   unfold planStep
-  rw [examine_treeIters cfg hm cfg.B hB p hp (.plate s) hj o]
+  rw [examine_treeIters cfg hm cfg.B hB p hp hw (.plate s) hj o]
   rfl
 
 /-- the launch is for the step that `examine` computed -/
@@ -279,6 +279,37 @@ theorem launchOf_pos {mode : Mode} {t : Tree} {nx : Next} {e : Option (List Nat)
     · split at h
       · cases h
       · injection h with h; subst h; simp
+
+/-- ... and runs a workflow the mode uses -/
+theorem launchOf_allowed {mode : Mode} {t : Tree} {nx : Next} {e : Option (List Nat)} {l : Launch}
+    (h : launchOf mode t nx e = .ok l) : allowed mode l.wf = true := by
+  unfold launchOf at h
+  cases mode with
+  | retrospective =>
+    simp only at h
+    split at h
+    · injection h with h; subst h; rfl
+    · split at h
+      · split at h
+        · cases h
+        · split at h
+          · cases h
+          · injection h with h; subst h; rfl
+      · split at h
+        · cases h
+        · split at h
+          · cases h
+          · injection h with h; subst h; rfl
+  | prospective =>
+    simp only at h
+    split at h
+    · injection h with h; subst h; rfl
+    · split at h
+      · cases h
+      · injection h with h; subst h; rfl
+
+theorem planLaunch_allowed {p : Prog} {l : Launch} (h : planLaunch cfg p = .ok l) :
+    allowed cfg.mode l.wf = true := launchOf_allowed h
 
 theorem planLaunch_pos {p : Prog} {l : Launch} (h : planLaunch cfg p = .ok l) :
     l.iter = p.cs.length ∧ l.plate = p.cur.length := by
